@@ -9,8 +9,9 @@ PURE_STD_MODULES = {
     'tuple', 'collections', 'rt', 'hint', 'boxed', 'ascii', 'unicode', 'panicking',
     'panic', 'error', 'primitive', 'f32', 'f64', 'usize', 'isize',
     'u8', 'u16', 'u32', 'u64', 'i8', 'i16', 'i32', 'i64', 'range',
+    'cell',   # per-value interior mutability (Cell/RefCell are !Sync): sharing it across calls needs a static (C17.R2) or Rc/Arc (not in this table)
 }
-# deliberately NOT pure: ptr (addresses), cell/rc (shared mutation), any (type ids), alloc, intrinsics,
+# deliberately NOT pure: ptr (addresses), rc (shared ownership), any (type ids), alloc, intrinsics,
 # ffi/path (only meaningful with ambient calls) - unknown => fail closed inside typstyle-core
 # modules that reach outside the process state given by the arguments
 AMBIENT_STD_MODULES = {
